@@ -9,7 +9,7 @@ EXPLANATION = ('Static rules on BehaviorSubject: B1 next() stores the new value 
                'a clone of the cell content to the new observer and then joins the inner subject; B3 the value cell is the subject family\'s '
                'shared pointer type (MutRc/MutArc, whose Clone clones the pointer), so all clones see one value; B4/B5 store+broadcast and '
                'replay+join each lie in one critical section (required for the thread-safe form; reported as known findings today); next_by = '
-               'peek, user f, next; B8 peek() takes only the shared (read) guard of the value cell; B7 no method holds the exclusive (write) guard of the value cell while it broadcasts, calls the new observer or runs a user closure (peek()/next_by()/subscribe from inside a callback must work). Does not decide exactly-once delivery of later items (C06) nor values.')
+               'peek, user f, next; B9 the inner subject hands every later item to every subscriber it accepted (same rules as C06.J1/J2/J6); B8 peek() takes only the shared (read) guard of the value cell; B7 no method holds the exclusive (write) guard of the value cell while it broadcasts, calls the new observer or runs a user closure (peek()/next_by()/subscribe from inside a callback must work). Does not decide exactly-once delivery of later items (C06) nor values.')
 ASSUMPTIONS = ['B4/B5 concern SubjectThreads instantiations with concurrent producers only']
 
 CONTROLS = [
@@ -46,6 +46,23 @@ def _store_ev(n):
 
 
 def check(cx):
+    return _check(cx) + b9(cx)
+
+
+def b9(cx):
+    """'then every later item exactly once': the inner subject moves every waiting subscriber into the live list and broadcasts to all
+    of them (same rules as C06.J1/J2/J6 for Subject and SubjectThreads)"""
+    if cx.control:
+        return []
+    from . import c06
+    out = []
+    for f in c06.check(cx):
+        if f.rule in ('J1', 'J2', 'J6') and ('subject::Subject<' in f.key or 'subject::SubjectThreads<' in f.key):
+            out.append(Finding(ID, 'B9', f.rule + ':' + f.key, f.ok, f.msg, f.loc, f.witness))
+    return out
+
+
+def _check(cx):
     F = cx.facts
     res = []
     seen = set()
